@@ -116,7 +116,7 @@ func directedConds(r *rand.Rand, t *Table, target Row) []*Node {
 
 func directedPhase(c *vf.Ctx, st *inprocStats, stream uint64) {
 	r := c.Rand(3000 + stream)
-	nTables := c.Pick(10, 90)
+	nTables := c.Pick(10, 60)
 	nTargets := c.Pick(16, 30)
 	settings := []Setting{{Coarse: 8}, {Coarse: 2}, {Coarse: 3, MinRowsForSeek: 4}}
 	for ti := 0; ti < nTables; ti++ {
